@@ -56,8 +56,11 @@ impl PartialEq for Object {
         if self.len() != other.len() {
             return false;
         }
-        // because we allow duplicated keys in object, so we need to compare by `get`
+        // because we allow duplicated keys in object, so we need to compare by `get`;
+        // in both directions: with a duplicated key the two objects can have the same length
+        // and different key sets, and equality must be symmetric
         self.iter().all(|(k, _)| other.get(&k) == self.get(&k))
+            && other.iter().all(|(k, _)| self.get(&k) == other.get(&k))
     }
 }
 
